@@ -822,7 +822,7 @@ def state_checks(case, io, header, tunes, exp_tunes, exp_excs):
     # parse_abc_tunebook_file is the same function behind a file read
     if sum(len(sec) for sec in secs) % 5 == 0:
         import os
-        d = os.path.join('/verif', 'build', 'tmp')
+        d = os.path.join(os.environ.get('VERIF_ROOT', '/verif'), 'build', 'tmp')
         os.makedirs(d, exist_ok=True)
         fn = os.path.join(d, 'c04_%d.abc' % os.getpid())
         with open(fn, 'w', newline='') as fh:
@@ -875,6 +875,37 @@ BARS = ['|', '|', '|', '||', '[|', '|]', '[|]']
 UN_TOKENS = [('chord', '[CEG]'), ('chord', '[ce]2'), ('tuplet', '(3'), ('tuplet', '(5'), ('variant', '|1'),
              ('variant', '[2'), ('variant', ':|2'), ('variant', '| 1'), ('invalid', 'z'), ('invalid', 'z2'),
              ('invalid', '!f!'), ('invalid', '{g}'), ('invalid', '+'), ('invalid', 'x'), ('invalid', '*')]
+
+
+def gen_chord(rng):
+    """a chord as CHORD_PATTERN defines it: '[' notes ']' with no blanks; the notes carry accidentals, octave
+    marks and lengths like free-standing notes; optionally a length after the bracket"""
+    marked = rng.random() < 0.6
+    notes = []
+    for i in range(rng.randint(2, 4)):
+        acc = rng.choice(['', '', '', '^', '_', '='])
+        letter = rng.choice('CDEFGABcdefgab')
+        octs = ''
+        if marked and (i == 0 or rng.random() < 0.6):
+            octs = rng.choice([',', "'", ',,', "''", ",'"])
+        ln = rng.choice(['', '', '', '2', '/', '/2', '3/2', '4'])
+        notes.append(acc + letter + octs + ln)
+    if marked and not any(("'" in x or ',' in x) for x in notes):
+        notes[-1] = notes[-1][0:1] + "'" if notes[-1][0] not in '^_=' else notes[-1][0:2] + ','
+    return '[' + ''.join(notes) + ']' + rng.choice(['', '', '2', '/2', '3', '3/2'])
+
+
+def gen_unsup(rng):
+    r = rng.random()
+    if r < 0.4:
+        return ('chord', gen_chord(rng))
+    if r < 0.5:
+        return ('tuplet', '(' + str(rng.randint(2, 9)) + rng.choice(['', '', ':2', ':2:3', '::2']))
+    if r < 0.6:
+        return ('variant', rng.choice(['|', '[', ':|', '|]', '||', '| ', ':| ']) + rng.choice(['1', '2', '1,3', '1-2', '3', '1,2,3']))
+    return rng.choice(UN_TOKENS)
+
+
 NOP_FIELDS = [('T', 'A tune'), ('C', 'Trad.'), ('R', 'reel'), ('N', 'a note'), ('O', 'Ireland'), ('Z', 'nobody'),
               ('S', 'source'), ('B', 'book'), ('r', 'remark'), ('I', 'linebreak $')]
 
@@ -1138,7 +1169,7 @@ def gen_tune(rng, table, ref, budget, flavour):
     if flavour == 'unsupported':
         r = rng.random()
         if r < 0.75:
-            kind, text = rng.choice(UN_TOKENS)
+            kind, text = gen_unsup(rng)
             pos = rng.randint(1 if text in ('-',) else 0, len(toks))
             # keep broken pairs intact
             while 0 < pos < len(toks) and (toks[pos][0] == 'br' or toks[pos - 1][0] == 'br'):
@@ -1241,6 +1272,14 @@ def corpus():
     # a lone tune without X: is a tune (reference number 0), not a file header
     out.append(book([['f', C], ['m', [n('C'), n('D')]]]))
     out.append(book([['f', ['L', 1, 4, False]]], [['f', C], ['m', [n('E')]]]))
+    # chords whose notes carry octave marks, with / without a length after the bracket, after valid notes and in
+    # later tunes of a tunebook: always ChordError, never a flattened melody
+    dn, up = ',', "'"
+    out.append(book(tune(1, C, [n('C'), n('D'), ['un', 'chord', '[C' + dn + 'E' + dn + 'G' + dn + ']'], n('E')])))
+    out.append(book(tune(1, C, [n('C'), n('D')]), tune(2, C, [n('E'), ['bar', 0, '|', 0], n('F'), ['un', 'chord', '[ceg' + up + ']']]),
+                    tune(3, C, [n('G')])))
+    out.append(book(tune(1, C, [n('C')]), tune(2, C, [n('A'), ['un', 'chord', '[^c' + up + '2e' + up + '2]2'], n('B')]),
+                    tune(3, C, [['un', 'chord', '[A' + dn + dn + '/c]/2']]), tune(4, C, [['bar', 0, '|', 1], n('c'), ['un', 'chord', '[C' + dn + 'E]3/2'], ['bar', 1, '|', 0]])))
     # ---- audit (C): rare but legal shapes
     out.append({'op': 'book', 'input': {'sections': []}})                               # empty tunebook
     out.append(book([['f', ['X', 0]]]))                                                 # a tune that is only X:0
